@@ -8,7 +8,7 @@
 (* Nothing below is used as an oracle by the drivers: judging observed      *)
 (* behaviour is the trace specifications' job.                              *)
 (***************************************************************************)
-EXTENDS FromStr, Json, IOUtils, TLC
+EXTENDS FromStr, Display, Json, IOUtils, TLC
 
 Defs == ndJsonDeserialize(IOEnv.DEFS)
 
@@ -20,6 +20,8 @@ Facts(E) ==
    wfn   |-> wfn,
    iswf  |-> IntoStrWF(E),
    bf    |-> BraceFree(E),
+   dwf   |-> IF wfn THEN DisplayWF(E) ELSE FALSE,
+   interp |-> [i \in Idx(E) |-> IF wfn THEN IsInterp(E, E.variants[i]) ELSE FALSE],
    sp    |-> [i \in Idx(E) |-> Spellings(E, E.variants[i])],
    canon |-> [i \in Idx(E) |-> IF wfn THEN CanonicalName(E, E.variants[i]) ELSE <<>>],
    snake |-> [i \in Idx(E) |-> Snakify(E.variants[i].id)],
